@@ -24,7 +24,12 @@ def stepLine (prop : String) (rs : RunSt) (line : String) (impl : Option Outcome
     else
       let (d', o) := worldOp rs.d fields
       let verdict := if rs.diverged then "ok" else judge prop rs.d fields impl o implMsg
-      let div := if f == "reset" then false else rs.diverged || !(agree impl o)
+      -- the judge reads the model's pre-state: it stays on while model and implementation accept
+      -- and reject the same state-changing operations (differing VALUES are reported as
+      -- disagreements by the caller, but both sides are still in corresponding states as far as
+      -- "which operations took effect" goes); it goes silent once a status differs
+      let stateOp := ["tx", "deliver", "cb", "deploy"].contains f
+      let div := if f == "reset" then false else rs.diverged || (stateOp && !(statusAgree impl o))
       -- the ghost history survives the model step (worldOp keeps unknown fields) and is updated
       -- from the implementation's outcome
       let d'' := if f == "reset" then d' else
